@@ -11,6 +11,8 @@ the safety net; it is run on the unchanged tree by hand (python -m pbt.props._de
 raising decoy must stay a non-event, the object under test is what gets judged.
 """
 
+from pbt.instruments.locks import SelfDeadlock as _SelfDeadlock
+
 ERRORS = [0]
 
 
@@ -29,7 +31,7 @@ def with_decoy(strategy):
 def _quiet(fn, *a, **kw):
     try:
         return fn(*a, **kw)
-    except Exception:  # noqa: BLE001 - the decoy is not under test
+    except (Exception, _SelfDeadlock):  # noqa: BLE001 - the decoy is not under test (a self-deadlock of the *decoy* on a broken tree is a non-event too)
         ERRORS[0] += 1
         return None
 
